@@ -19,21 +19,22 @@ ENCODED = ["twisted.internet.base:ReactorBase.callLater",
            "twisted.internet.base:DelayedCall.delay", "twisted.internet.base:DelayedCall.activate_delay",
            "twisted.internet.base:DelayedCall.getTime", "twisted.internet.base:DelayedCall.active",
            "twisted.internet.base:DelayedCall.__le__", "twisted.internet.base:DelayedCall.__lt__"]
-BOUNDS = {"quick": {"n": 3, "ni": 3, "tot": 3, "tot_in": 2, "m": 1, "nd": 1, "ks": 7},
-          "thorough": {"n": 4, "ni": 4, "tot": 4, "tot_in": 3, "m": 2, "nd": 1, "ks": 7}}
+BOUNDS = {"quick": {"n": 3, "ni": 3, "n2": 2, "tot": 3, "tot_in": 2, "m": 1, "nd": 1, "ks": 7},
+          "thorough": {"n": 4, "ni": 4, "n2": 3, "tot": 4, "tot_in": 3, "m": 2, "nd": 1, "ks": 7}}
 B = {}
 PADS = 51           # concrete cancelled far-future heap entries used to reach the compaction branch
 FAR = 1.0e9         # their time; all symbolic times and the clock stay below it in step_compact
 BOUNDS_TEXT = ("all clock values, delays and arguments are symbolic reals with |x| <= 1e6 (delays >= 0).  history: "
                "from the empty reactor 2..n callLater, optional timeout() (moves the calls into the heap), ONE "
-               "modification (cancel i | reset i r>=0 | delay i r of any sign | callLater r | none) done from outside "
+               "modification (cancel i | reset i r>=0 | delay i r of any sign | callLater r | none; from inside a call "
+               "also callLater(r2) followed by reset i r / delay i r, with r2 == 0 when more than n2 calls) done from outside "
                "(n calls) or from inside any one of the running calls (<= ni calls), then two symbolic clock advances "
                "each followed by runUntilCurrent and timeout().  Inductive steps from an arbitrary invariant-"
                "satisfying state of k heap entries + m <= B.m staged entries, any cancelled flags, at most nd entry "
                "with a pending positive delayed_time, any clock: step_op (k+m <= tot): one of timeout / cancel i / "
                "reset i r / delay i r / callLater r; step_run (k+m <= tot, or <= tot_in when a call acts): one "
-               "runUntilCurrent in which call `who` performs cancel/reset/delay/callLater/callLater-then-cancel on "
-               "entry tgt (itself included); step_sift: reset/delay on any entry of a heap of 4..ks active entries; "
+               "runUntilCurrent in which call `who` performs cancel/reset/delay/callLater/callLater-then-cancel, or the "
+               "two-action sequence callLater(r2) then reset/delay, on entry tgt (itself included); step_sift: reset/delay on any entry of a heap of 4..ks active entries; "
                "step_compact: step_run with 51 extra cancelled far-future heap entries and _cancellations off by "
                "0 or 1, so that both outcomes of the compaction test occur")
 OUTSIDE = ["float rounding: times are exact reals (CrossHair real-based float model, finite values); the claim "
@@ -128,6 +129,7 @@ class _W:
         self.it = 0
         self.ok = True
         self.inner = None   # (who, act, tgt, r)
+        self.r2 = 0.0       # delay of the call scheduled first by the two-action sequences (act 6, 7)
         self.residue = False   # cancelled entries may still sit in the heap
 
     # -- operations, applied to real reactor and model ------------------------------------
@@ -168,6 +170,9 @@ class _W:
         if act == 5:    # schedule a call and cancel it at once (a timeout that is not needed after all)
             tgt = self.call_later(r)
             act = 1
+        if act >= 6:    # two actions: schedule a new call (delay r2), then reset (6) / delay (7) entry tgt
+            self.call_later(self.r2)
+            act = act - 4
         exp = self.ms[tgt]
         c = self.dc[tgt]
         try:
@@ -290,21 +295,23 @@ def _inv(R):
 
 
 def history(t0: float, n: int, d0: float, d1: float, d2: float, d3: float, tm: bool,
-            act: int, tgt: int, who: int, r: float, a1: float, a2: float) -> bool:
+            act: int, tgt: int, who: int, r: float, a1: float, a2: float, r2: float) -> bool:
     """
     pre: 2 <= n <= B['n'] and 0 <= d0 <= BIG and 0 <= d1 <= BIG and 0 <= d2 <= BIG and 0 <= d3 <= BIG
-    pre: 0 <= act <= 4 and 0 <= tgt < n and -1 <= who < n and (tgt == 0 or 1 <= act <= 3)
-    pre: -BIG <= t0 <= BIG and -BIG <= r <= BIG and (r >= 0 or act == 3)
+    pre: 0 <= act <= 7 and 0 <= tgt < n and -1 <= who < n and (tgt == 0 or 1 <= act <= 3 or act >= 6)
+    pre: (act < 6 and r2 == 0) or (act >= 6 and who >= 0 and 0 <= r2 <= BIG and (n <= B['n2'] or r2 == 0))
+    pre: -BIG <= t0 <= BIG and -BIG <= r <= BIG and (r >= 0 or act == 3 or act == 7)
     pre: 0 <= a1 <= BIG and 0 <= a2 <= BIG
     pre: (who == -1 or not tm) and (act != 0 or who == -1)
     pre: n <= B['ni'] or (who == -1 and (tm or act == 0))
     post: _
     """
     n = _pick(n, 2, B['n'])
-    act = _pick(act, 0, 4)
+    act = _pick(act, 0, 7)
     tgt = _pick(tgt, 0, n - 1)
     who = _pick(who, -1, n - 1)
     W = _W(t0)
+    W.r2 = r2
     ds = [d0, d1, d2, d3]
     for i in range(n):
         W.call_later(ds[i])
@@ -414,11 +421,12 @@ def step_op(now: float, k: int, m: int, cm: int, drift: int,
 
 def step_run(now: float, k: int, m: int, cm: int, drift: int,
              t0: float, t1: float, t2: float, t3: float, t4: float, u0: float, u1: float,
-             dx: int, dl: float, dy: int, dm: float, who: int, act: int, tgt: int, r: float) -> bool:
+             dx: int, dl: float, dy: int, dm: float, who: int, act: int, tgt: int, r: float,
+             r2: float) -> bool:
     """
     pre: _state_pre(B['tot'] if act == 0 else B['tot_in'], k, m, cm, drift, (t0, t1, t2, t3, t4), (u0, u1), dx, dl, dy, dm)
-    pre: -BIG <= now <= BIG and -BIG <= r <= BIG
-    pre: 0 <= act <= 5 and (r >= 0 or act == 3) and 1 <= k + m
+    pre: -BIG <= now <= BIG and -BIG <= r <= BIG and 0 <= r2 <= BIG and (act >= 6 or r2 == 0)
+    pre: 0 <= act <= 7 and (r >= 0 or act == 3 or act == 7) and 1 <= k + m
     pre: 0 <= who < k + m and (0 <= tgt < k + m) and (act != 0 or who + tgt == 0)
     post: _
     """
@@ -427,10 +435,11 @@ def step_run(now: float, k: int, m: int, cm: int, drift: int,
     cm = _pick(cm, 0, 2 ** (k + m) - 1)
     dx = _pick(dx, -1, k + m - 1)
     dy = _pick(dy, -1, k + m - 1)
-    act = _pick(act, 0, 5)
+    act = _pick(act, 0, 7)
     who = _pick(who, 0, k + m - 1)
     tgt = _pick(tgt, 0, k + m - 1)
     W = _build(now, k, m, cm, drift, (t0, t1, t2, t3, t4), (u0, u1), dx, dl, dy, dm, 0)
+    W.r2 = r2
     d0 = W.R._cancellations - _ncancelled(W.R)
     W.inner = (who, act, tgt, r)
     W.iterate()
@@ -503,8 +512,9 @@ def _hist_shards(tier):
     out += [("act == %d" % a, "who == -1", "tgt == %d" % t) for a in (2, 3) for t in range(n)]
     if tier == "quick":
         out += [("act == %d" % a, "who >= 0") for a in (1, 2, 4)] + [("act == 3", "who == 0"), ("act == 3", "who >= 1")]
+        out += [("act == %d" % a, "who == %d" % w) for a in (6, 7) for w in range(BOUNDS[tier]["ni"])]
     else:
-        out += [("act == %d" % a, "who == %d" % w) for a in range(1, 5) for w in range(BOUNDS[tier]["ni"])]
+        out += [("act == %d" % a, "who == %d" % w) for a in (1, 2, 3, 4, 6, 7) for w in range(BOUNDS[tier]["ni"])]
     return out
 
 
@@ -518,7 +528,7 @@ HARNESSES = [
     H(history, shards=_hist_shards, timeout={"quick": 90, "thorough": 1500}),
     H(step_op, shards=lambda tier: [("act == %d" % a,) for a in range(5)],
       timeout={"quick": 90, "thorough": 1500}),
-    H(step_run, shards=lambda tier: [("act == 0",)] + _inner_shards(tier, (1, 2, 3, 4, 5)),
+    H(step_run, shards=lambda tier: [("act == 0",)] + _inner_shards(tier, (1, 2, 3, 4, 5, 6, 7)),
       timeout={"quick": 90, "thorough": 1500}),
     H(step_sift, shards=lambda tier: [("act == 2",), ("act == 3",)], timeout={"quick": 90, "thorough": 1500}),
     H(step_compact, shards=lambda tier: [("act == 0", "k + m == %d" % BOUNDS[tier]["tot"]),
@@ -528,15 +538,18 @@ HARNESSES = [
 ]
 
 VECTORS = {
-    "history": [(0.0, 3, 1.0, 2.0, 0.5, 0.0, True, 2, 1, -1, 0.25, 1.0, 5.0),
-                (10.0, 3, 1.0, 2.0, 0.5, 0.0, False, 1, 1, 0, 0.0, 1.0, 5.0),
-                (0.0, 3, 1.0, 2.0, 0.5, 0.0, False, 3, 1, -1, -1.75, 1.0, 5.0),
-                (0.0, 3, 1.0, 2.0, 0.5, 0.0, False, 4, 0, 2, 0.0, 1.0, 0.0),
-                (0.0, 2, 0.0, 0.0, 0.0, 0.0, False, 2, 1, 0, 0.0, 0.0, 0.0)],
+    "history": [(0.0, 3, 1.0, 2.0, 0.5, 0.0, True, 2, 1, -1, 0.25, 1.0, 5.0, 0.0),
+                (10.0, 3, 1.0, 2.0, 0.5, 0.0, False, 1, 1, 0, 0.0, 1.0, 5.0, 0.0),
+                (0.0, 3, 1.0, 2.0, 0.5, 0.0, False, 3, 1, -1, -1.75, 1.0, 5.0, 0.0),
+                (0.0, 3, 1.0, 2.0, 0.5, 0.0, False, 4, 0, 2, 0.0, 1.0, 0.0, 0.0),
+                (0.0, 2, 0.0, 0.0, 0.0, 0.0, False, 2, 1, 0, 0.0, 0.0, 0.0, 0.0),
+                (0.0, 3, 1.0, 5.0, 3.0, 0.0, False, 6, 1, 0, 0.0, 1.0, 1.0, 0.0),
+                (0.0, 3, 1.0, 5.0, 3.0, 0.0, False, 7, 1, 0, -4.5, 1.0, 1.0, 0.5)],
     "step_op": [(5.0, 2, 1, 0b010, 0, 1.0, 2.0, 0.0, 0.0, 0.0, 4.0, 0.0, 1, 1.0, -1, 0.0, 2, 1, 0.0),
                 (5.0, 3, 0, 0b001, 1, 1.0, 2.0, 3.0, 0.0, 0.0, 0.0, 0.0, -1, 0.0, -1, 0.0, 0, 0, 0.0)],
-    "step_run": [(5.0, 3, 0, 0b010, 0, 1.0, 2.0, 3.0, 0.0, 0.0, 0.0, 0.0, 0, 1.0, -1, 0.0, 0, 0, 0, 0.0),
-                 (5.0, 1, 1, 0b00, 0, 1.0, 0.0, 0.0, 0.0, 0.0, 4.0, 0.0, 0, 1.0, -1, 0.0, 0, 5, 1, 0.0)],
+    "step_run": [(5.0, 3, 0, 0b010, 0, 1.0, 2.0, 3.0, 0.0, 0.0, 0.0, 0.0, 0, 1.0, -1, 0.0, 0, 0, 0, 0.0, 0.0),
+                 (5.0, 2, 0, 0b00, 0, 1.0, 9.0, 0.0, 0.0, 0.0, 0.0, 0.0, -1, 0.0, -1, 0.0, 0, 6, 1, 0.0, 0.0),
+                 (5.0, 1, 1, 0b00, 0, 1.0, 0.0, 0.0, 0.0, 0.0, 4.0, 0.0, 0, 1.0, -1, 0.0, 0, 5, 1, 0.0, 0.0)],
     "step_sift": [(0.0, 5, 1.0, 2.0, 3.0, 4.0, 5.0, 0.0, 0.0, 2, 4, 0.5),
                   (0.0, 7, 1.0, 2.0, 3.0, 4.0, 5.0, 6.0, 7.0, 3, 6, -6.5)],
     "step_compact": [(5.0, 1, 1, 0b00, 0, 1.0, 0.0, 0.0, 0.0, 0.0, 4.0, 0.0, 0, 1.0, -1, 0.0, 0, 5, 1, 0.0),
